@@ -95,6 +95,10 @@ def impl_init():
         pkt = U.scapy_from_spec(c["spec"])
         if "edit" in c:
             e = c["edit"]
+            try:
+                parse_packet(pkt)            # the owner had it parsed once before editing it: nothing of that may be remembered
+            except PacketError:
+                pass
             ip = pkt.getlayer("IP") or pkt.getlayer("IPv6")
             if ip.version == 4:
                 ip.ttl, ip.id = e["ttl"], e["id"]
